@@ -41,7 +41,9 @@ inductive Path where
   deriving DecidableEq, Repr
 
 inductive Tok where
-  | bad | good
+  | bad      -- truncated / being written / computed from wrong input
+  | good     -- the complete content a correct computation of *this* run gives
+  | stale    -- a complete file with other content (left by an earlier run with other options or inputs)
   deriving DecidableEq, Repr
 
 abbrev FS := Path → Option Tok
@@ -52,6 +54,8 @@ def FS.set (fs : FS) (p : Path) (v : Option Tok) : FS := fun q => if q = p then 
 def FS.has (fs : FS) (p : Path) : Bool := (fs p).isSome
 /-- the file exists and is complete and correct -/
 def FS.good (fs : FS) (p : Path) : Bool := fs p == some Tok.good
+/-- a pickle / terminated binary stream that can be read to its end (complete, whatever its content) -/
+def FS.loadable (fs : FS) (p : Path) : Bool := fs p == some Tok.good || fs p == some Tok.stale
 
 inductive Ev where
   | create (p : Path)
@@ -100,7 +104,7 @@ def runActs : List Act → FS → Res
   | .exist p :: as, fs =>
       if fs.has p then runActs as fs else ⟨[], fs, false⟩
   | .load p :: as, fs =>
-      if fs.good p then runActs as fs else ⟨[], fs, false⟩
+      if fs.loadable p then runActs as fs else ⟨[], fs, false⟩
   | .rm p :: as, fs =>
       if fs.has p then
         let r := runActs as (apply fs (.remove p))
@@ -125,12 +129,14 @@ structure Variant where
   dropProcessed : Bool
   locksFirst : Bool
   countUnaligned : Bool
+  cleanBeforeParams : Bool   -- a fresh run removes the lock files of an earlier run before it saves `.params`
+  dropAtDumpPrefix : Bool    -- the `_processed` locks are dropped where they were written (next to the save files)
   deriving DecidableEq, Repr
 
 /-- the repaired code (the current /repo) -/
-def fixed : Variant := ⟨true, true, true, true⟩
+def fixed : Variant := ⟨true, true, true, true, true, true⟩
 /-- the code as pinned -/
-def pinned : Variant := ⟨false, false, false, false⟩
+def pinned : Variant := ⟨false, false, false, false, false, true⟩
 
 inductive RG where
   | none      -- no --read_group
@@ -146,6 +152,8 @@ structure Cfg where
   rg : RG
   keepTmp : Bool
   unmapped : Bool       -- the BAM files contain unaligned reads
+  fromSaves : Bool      -- `--read_assignments <prefix>`: no read collection; the `save`/`multimap`/`info`/`processed`/
+                        -- `readStat`/`trStat` paths are then the files next to the user's save files (dump_filename)
   deriving Repr
 
 def aggPrinters (cfg : Cfg) : List Stream := .bed :: (if cfg.genedb then [.assign] else [])
@@ -171,7 +179,9 @@ def finalPaths (cfg : Cfg) : List Path :=
   ++ (ungrouped cfg).flatMap (fun s => [Path.final s, Path.tpm s])
   ++ (grouped cfg).flatMap (fun s => [Path.final s, Path.finalLin s, Path.tpm s])
 
-def tokOf (b : Bool) : Tok := if b then .good else .bad
+/-- the content token of a file that has been written completely: correct iff everything it was computed from was
+    (a complete file with wrong content is `stale`, never `bad`: its readers do not raise) -/
+def tokOf (b : Bool) : Tok := if b then .good else .stale
 def allGood (fs : FS) (ps : List Path) : Bool := ps.all fs.good
 
 def evs (l : List Ev) : List Act := l.map Act.ev
@@ -179,6 +189,17 @@ def evs (l : List Ev) : List Act := l.map Act.ev
 def rmAll (ps : List Path) : List Act := ps.map Act.rm
 
 /-! ### stages -/
+
+/-- the lock files a fresh (not resumed) run finds and removes before saving its parameters
+    (isoquant.py remove_previous_run_locks: the sample's `_lock`, `read_group_lock`, `_*_collected`, `_*_processed`;
+    with `--read_assignments` the `_*_processed` files next to the save files) -/
+def lockList (cfg : Cfg) (fs : FS) : List Path :=
+  (if cfg.fromSaves then [Path.rgLock] else [Path.lock, Path.rgLock]).filter fs.has
+  ++ (cfg.chrs.filter (fun c => !cfg.fromSaves && fs.has (.collected c))).map Path.collected
+  ++ (cfg.chrs.filter (fun c => fs.has (.processed c))).map Path.processed
+
+def forceClean (v : Variant) (cfg : Cfg) (resume : Bool) : Stage := fun fs =>
+  if resume || !v.cleanBeforeParams then [] else rmAll (lockList cfg fs)
 
 /-- isoquant.py check_and_load_args: `--resume` unpickles `.params`; save_params rewrites it -/
 def paramsStage (resume : Bool) : Stage := fun _ =>
@@ -269,7 +290,8 @@ def constructChr (v : Variant) (cfg : Cfg) (resume : Bool) (c : Chr) : Stage := 
 
 /-- (repaired code) the `_processed` locks are removed before merging -/
 def dropStage (v : Variant) (cfg : Cfg) : Stage := fun fs =>
-  if v.dropProcessed then rmAll ((cfg.chrs.filter (fun c => fs.has (.processed c))).map Path.processed)
+  if v.dropProcessed && (v.dropAtDumpPrefix || !cfg.fromSaves) then
+    rmAll ((cfg.chrs.filter (fun c => fs.has (.processed c))).map Path.processed)
   else []
 
 /-- file_utils.merge_files: existing parts are copied, then *all* parts are removed (a missing one raises) -/
@@ -334,24 +356,27 @@ def cleanupLocks (v : Variant) (cfg : Cfg) : Stage := fun fs =>
 def globStage (sel : Path → Bool) (ord : List Path) : Stage := fun fs =>
   rmAll (ord.filter (fun p => sel p && fs.has p))
 
+/-- `sk` = the stage lock exists and the run is resumed; with `--read_assignments` there is no collection at all,
+    the number of unaligned reads is never counted (0 in every run) and nothing is cleaned up -/
 def stages (v : Variant) (cfg : Cfg) (ord : List Path) (resume sk : Bool) : List Stage :=
-  [paramsStage resume, rgStage cfg resume, collectPre cfg resume sk]
-  ++ cfg.chrs.map (collectChr v cfg resume sk)
-  ++ [collectPost cfg sk, constructPre cfg]
+  [paramsStage resume, rgStage cfg resume, collectPre cfg resume (sk || cfg.fromSaves)]
+  ++ cfg.chrs.map (collectChr v cfg resume (sk || cfg.fromSaves))
+  ++ [collectPost cfg (sk || cfg.fromSaves), constructPre cfg]
   ++ cfg.chrs.map (constructChr v cfg resume)
-  ++ [dropStage v cfg, mergeStage cfg (!sk || v.countUnaligned)]
-  ++ (if cfg.keepTmp then [] else [cleanupLocks v cfg, globStage isSaveAux ord, globStage isRgAux ord])
+  ++ [dropStage v cfg, mergeStage cfg (!sk || v.countUnaligned || cfg.fromSaves)]
+  ++ (if cfg.keepTmp || cfg.fromSaves then []
+      else [cleanupLocks v cfg, globStage isSaveAux ord, globStage isRgAux ord])
 
 /-- one run of the pipeline on the file system `fs`; `ord` = directory order seen by the clean-up globs -/
 def run (v : Variant) (cfg : Cfg) (ord : List Path) (resume : Bool) (fs : FS) : Res :=
-  runStages (stages v cfg ord resume (resume && fs.has .lock)) fs
+  runStages (forceClean v cfg resume :: stages v cfg ord resume (resume && fs.has .lock)) fs
 
-/-- the events of an uninterrupted run in a fresh output directory -/
-def cleanEvents (v : Variant) (cfg : Cfg) (ord : List Path) : List Ev := (run v cfg ord false FS.empty).evs
+/-- the events of an uninterrupted run started on the file system `fs0` (whatever an earlier run left there) -/
+def cleanEventsFrom (v : Variant) (cfg : Cfg) (ord : List Path) (fs0 : FS) : List Ev := (run v cfg ord false fs0).evs
 
-/-- the file system left by a run that is killed after `k` of its events -/
-def crashFS (v : Variant) (cfg : Cfg) (ord : List Path) (k : Nat) : FS :=
-  applyAll FS.empty ((cleanEvents v cfg ord).take k)
+/-- the file system left by a run that is started on `fs0` and killed after `k` of its events -/
+def crashFSFrom (v : Variant) (cfg : Cfg) (ord : List Path) (fs0 : FS) (k : Nat) : FS :=
+  applyAll fs0 ((cleanEventsFrom v cfg ord fs0).take k)
 
 inductive Verdict where
   | equal     -- the resumed run completes and every final file equals that of the uninterrupted run
@@ -361,12 +386,17 @@ inductive Verdict where
 
 def sameFinals (cfg : Cfg) (a b : FS) : Bool := (finalPaths cfg).all (fun p => a p == b p)
 
-/-- kill the first run after `k` events, resume (directory order `ord'`), compare with the uninterrupted run -/
-def verdict (v : Variant) (cfg : Cfg) (ord ord' : List Path) (k : Nat) : Verdict :=
-  let r := run v cfg ord' true (crashFS v cfg ord k)
+/-- start on `fs0`, kill after `k` events, resume (directory order `ord'`), compare with the uninterrupted run on `fs0` -/
+def verdictFrom (v : Variant) (cfg : Cfg) (ord ord' : List Path) (fs0 : FS) (k : Nat) : Verdict :=
+  let r := run v cfg ord' true (crashFSFrom v cfg ord fs0 k)
   if !r.ok then .fail
-  else if sameFinals cfg r.fs (run v cfg ord false FS.empty).fs then .equal
+  else if sameFinals cfg r.fs (run v cfg ord false fs0).fs then .equal
   else .diff
+
+/-- the same in a fresh output directory -/
+def cleanEvents (v : Variant) (cfg : Cfg) (ord : List Path) : List Ev := cleanEventsFrom v cfg ord FS.empty
+def crashFS (v : Variant) (cfg : Cfg) (ord : List Path) (k : Nat) : FS := crashFSFrom v cfg ord FS.empty k
+def verdict (v : Variant) (cfg : Cfg) (ord ord' : List Path) (k : Nat) : Verdict := verdictFrom v cfg ord ord' FS.empty k
 
 /-- the paths a run of configuration `cfg` can touch (used to print file systems) -/
 def allPaths (cfg : Cfg) : List Path :=
